@@ -366,3 +366,148 @@ Proof.
   exists 4%N. change (cstr "0:-1") with ([48; 58; 45; 49] ++ 0 :: [])%N.
   apply (cstring_app [48; 58; 45; 49]%N []). repeat constructor; discriminate.
 Qed.
+
+(* ------------------------------------------------------------------ *)
+(* the calc-specific parsers never read outside a NUL-terminated argument *)
+Local Open Scope N_scope.
+
+Lemma cstring_rdr s n j : cstring s n -> j <= n -> exists b, rdr s j = Ok b /\ (j < n -> b <> 0) /\ (j = n -> b = 0).
+Proof.
+  intros [H0 Hk] Hj. unfold rdr. destruct (N.eq_dec j n) as [->|Hne].
+  - rewrite H0. exists 0. split; [reflexivity|]. split; [lia|reflexivity].
+  - destruct (Hk j) as [b [Hb Nz]]; [lia|]. rewrite Hb. exists b. split; [reflexivity|]. split; [auto|lia].
+Qed.
+
+Lemma cstring_len s n : cstring s n -> n < len s.
+Proof. intros [H0 _]. now apply rd_some_lt in H0. Qed.
+
+Lemma parse_level_size_total s n p : cstring s n -> p <= n ->
+  exists l, parse_level_size s p = Ok l /\ p + l <= n.
+Proof.
+  intros Hs Hp. unfold parse_level_size, strcspn.
+  destruct (scan_while_ok (fun b => negb (b =? 0) && negb (mem_byte b [C_COLON; C_EQ; C_DOT; C_LBR])) s n p Hs Hp eq_refl)
+    as [j [Hj Hr]].
+  rewrite Hj. cbn [bind]. replace (p + (j - p)) with j by lia.
+  destruct (cstring_rdr s n j Hs) as [c [Hc _]]; [lia|]. rewrite Hc. cbn [bind].
+  destruct (negb (c =? C_LBR)).
+  - exists (j - p). split; [reflexivity|lia].
+  - destruct (strchr_ok s n j C_RBR Hs) as [r [Hr2 Hspec]]; [lia|]. rewrite Hr2. cbn [bind].
+    destruct r as [k|].
+    + exists (k + 1 - p). split; [reflexivity|]. destruct Hspec as [Hk [Hrd _]].
+      assert (k <> n). { intros ->. destruct Hs as [H0 _]. rewrite H0 in Hrd. discriminate. }
+      lia.
+    + exists 0. split; [reflexivity|lia].
+Qed.
+
+(* the copy "memcpy(string, s+p, l); string[l] = 0" of a piece of a C string is a C string of length l *)
+Lemma nth_error_firstn_lt {A} (l : list A) : forall k m, (m < k)%nat -> nth_error (firstn k l) m = nth_error l m.
+Proof.
+  induction l as [|x l IH]; intros k m H.
+  - now rewrite firstn_nil.
+  - destruct k; [lia|]. destruct m; [reflexivity|]. cbn. apply IH. lia.
+Qed.
+
+Lemma copy_cstring s n p l : cstring s n -> p + l <= n -> cstring (sub s p (p + l) ++ [0]) l.
+Proof.
+  intros Hs Hl. pose proof (cstring_len s n Hs) as Hlen.
+  assert (Hlen2 : len (sub s p (p + l)) = l).
+  { unfold sub, len in *. rewrite firstn_length, skipn_length. lia. }
+  rewrite <- Hlen2 at 2. apply cstring_app. unfold no_nul. rewrite Forall_forall. intros b Hb.
+  destruct (In_nth_error _ _ Hb) as [m Hm].
+  assert (Hml : (m < N.to_nat l)%nat).
+  { assert (m < List.length (sub s p (p + l)))%nat by (apply nth_error_Some; congruence). unfold len in Hlen2. lia. }
+  unfold sub in Hm. replace (N.to_nat (p + l - p)) with (N.to_nat l) in Hm by lia.
+  rewrite nth_error_firstn_lt in Hm by exact Hml.
+  assert (Hrd : rd (skipn (N.to_nat p) s) (N.of_nat m) = Some b) by (unfold rd; now rewrite Nat2N.id).
+  rewrite rd_skipn in Hrd. destruct Hs as [_ Hk]. destruct (Hk (p + N.of_nat m)) as [b' [Hb' Nz]]; [lia|]. congruence.
+Qed.
+
+Lemma has_prefix_total lit s n : no_nul (bytes_of_string lit) -> cstring s n -> exists b, has_prefix lit s 0 = Ok b.
+Proof.
+  intros Hl Hs. rewrite has_prefix_spec by exact Hl.
+  pose proof (prefix_l_ok (bytes_of_string lit) s n 0 Hl Hs) as H.
+  destruct (prefix_l (bytes_of_string lit) (skipn (N.to_nat 0) s)) as [b|]; [eauto|]. exfalso. apply H; [lia|reflexivity].
+Qed.
+
+Lemma parse_range_total s n p : cstring s n -> p <= n ->
+  exists r, parse_range s p = Ok r /\ match snd r with Some d => p <= d < n | None => True end.
+Proof.
+  intros Hs Hp. unfold parse_range.
+  destruct (strchr_ok s n p C_DOT Hs Hp) as [dot [Hdot Hspec]]. rewrite Hdot. cbn [bind].
+  assert (Hd : match dot with Some d => p <= d < n | None => True end).
+  { destruct dot as [d|]; [|exact I]. destruct Hspec as [Hk [Hrd _]].
+    assert (d <> n). { intros ->. destruct Hs as [H0 _]. rewrite H0 in Hrd. discriminate. } lia. }
+  assert (Hl : exists l, (match dot with Some d => Ok (d - p) | None => strlen_at s p end) = Ok l /\ p + l <= n).
+  { destruct dot as [d|].
+    - exists (d - p). split; [reflexivity|lia].
+    - rewrite (strlen_at_ok s n p Hs Hp). exists (n - p). split; [reflexivity|lia]. }
+  destruct Hl as [l [-> Hln]]. cbn [bind].
+  destruct (65 <=? l); [eexists; split; [reflexivity|exact Hd]|].
+  rewrite rdn_ok by (pose proof (cstring_len s n Hs); lia). cbn [bind].
+  pose proof (copy_cstring s n p l Hs Hln) as Hc. set (str := sub s p (p + l) ++ [0]) in *.
+  destruct (cstring_rdr str l 0 Hc) as [c0 [Hc0 _]]; [lia|]. rewrite Hc0. cbn [bind].
+  destruct (negb (isdigit c0)).
+  - destruct (has_prefix_total "all" str l) as [a Ha]; [repeat constructor; discriminate|exact Hc|]. rewrite Ha. cbn [bind].
+    destruct a; [eexists; split; [reflexivity|exact Hd]|].
+    destruct (has_prefix_total "odd" str l) as [o Ho]; [repeat constructor; discriminate|exact Hc|]. rewrite Ho. cbn [bind].
+    destruct o; [eexists; split; [reflexivity|exact Hd]|].
+    destruct (has_prefix_total "even" str l) as [e He]; [repeat constructor; discriminate|exact Hc|]. rewrite He. cbn [bind].
+    destruct e; eexists; (split; [reflexivity|exact Hd]).
+  - destruct (strtol_ok str l 0 10 Hc) as [first [e [He Hel]]]; [lia|]. rewrite He. cbn [bind].
+    destruct (cstring_rdr str l e Hc) as [ce [Hce [Hnz Hz]]]; [lia|]. rewrite Hce. cbn [bind].
+    destruct (N.eqb_spec ce C_MINUS) as [Em|_].
+    + assert (e < l). { destruct (N.eq_dec e l) as [->|]; [|lia]. specialize (Hz eq_refl). subst ce. discriminate. }
+      destruct (strtol_ok str l (e + 1) 10 Hc) as [last [e2 [He2 Hel2]]]; [lia|]. rewrite He2. cbn [bind].
+      destruct (cstring_rdr str l e2 Hc) as [c2 [Hc2 _]]; [lia|]. rewrite Hc2. cbn [bind].
+      destruct (negb (c2 =? 0)); [eexists; split; [reflexivity|exact Hd]|].
+      destruct (e2 =? e + 1); eexists; (split; [reflexivity|exact Hd]).
+    + destruct (N.eqb_spec ce C_COLON) as [Ec|_].
+      * assert (e < l). { destruct (N.eq_dec e l) as [->|]; [|lia]. specialize (Hz eq_refl). subst ce. discriminate. }
+        destruct (strtol_ok str l (e + 1) 10 Hc) as [am [e2 [He2 Hel2]]]; [lia|]. rewrite He2. cbn [bind].
+        destruct (cstring_rdr str l e2 Hc) as [c2 [Hc2 _]]; [lia|]. rewrite Hc2. cbn [bind].
+        destruct (negb (c2 =? 0)); [eexists; split; [reflexivity|exact Hd]|].
+        destruct (e2 =? e + 1); eexists; (split; [reflexivity|exact Hd]).
+      * destruct (negb (ce =? 0)); eexists; (split; [reflexivity|exact Hd]).
+Qed.
+
+(* the whole chain, for any level resolver that itself stays inside the copied type string *)
+Lemma parse_chain_total (LV : Type) (resolve : list N -> res (option (lvl LV))) s n :
+  cstring s n -> (forall t, nul_terminated t -> resolve t <> Oob) ->
+  forall fuel p, p <= n -> (N.to_nat (n - p) < fuel)%nat -> parse_chain LV resolve fuel s p <> Oob.
+Proof.
+  intros Hs Hres. induction fuel as [|f IH]; intros p Hp Hf; [lia|].
+  cbn [parse_chain].
+  destruct (parse_range_total s n p Hs Hp) as [[r dot] [-> Hd]]. cbn [bind snd] in *.
+  destruct r as [r|]; [|discriminate].
+  destruct ((r_amount r =? -1)%Z && r_wrap r); [discriminate|].
+  destruct dot as [d|]; [|discriminate].
+  destruct (parse_level_size_total s n (d + 1) Hs) as [tl [-> Htl]]; [lia|]. cbn [bind].
+  destruct (cstring_rdr s n (d + 1 + tl) Hs) as [sc [-> [Hnz Hz]]]; [lia|]. cbn [bind].
+  destruct (N.eqb_spec tl 0) as [->|Hne]; [discriminate|]. cbn [orb].
+  destruct (N.eqb_spec sc C_COLON) as [Esc|_]; [|discriminate]. cbn [negb].
+  assert (Hlt : d + 1 + tl < n).
+  { destruct (N.eq_dec (d + 1 + tl) n) as [E|]; [|lia]. specialize (Hz E). subst sc. discriminate. }
+  unfold parse_level. destruct (21 <=? tl); [discriminate|].
+  rewrite rdn_ok by (pose proof (cstring_len s n Hs); lia). cbn [bind].
+  pose proof (Hres (sub s (d + 1) (d + 1 + tl) ++ [0])) as Hr.
+  destruct (resolve (sub s (d + 1) (d + 1 + tl) ++ [0])) as [lv|] eqn:E.
+  - cbn [bind]. destruct lv as [[l| |]|]; try discriminate.
+    specialize (IH (d + 1 + tl + 1)).
+    destruct (parse_chain LV resolve f s (d + 1 + tl + 1)) as [rest|].
+    + cbn [bind]. destruct rest; discriminate.
+    + exfalso. apply IH; [lia|lia|reflexivity].
+  - exfalso. apply Hr; [|reflexivity]. exists tl. apply (copy_cstring s n); [exact Hs|lia].
+Qed.
+
+Lemma calc_parsers_total (LV : Type) (resolve : list N -> res (option (lvl LV))) s n :
+  cstring s n -> (forall t, nul_terminated t -> resolve t <> Oob) ->
+  forall p, p <= n ->
+    (exists l, parse_level_size s p = Ok l /\ p + l <= n)
+    /\ (exists r, parse_range s p = Ok r)
+    /\ parse_chain LV resolve (S (List.length s)) s p <> Oob.
+Proof.
+  intros Hs Hres p Hp. split; [exact (parse_level_size_total s n p Hs Hp)|]. split.
+  - destruct (parse_range_total s n p Hs Hp) as [r [Hr _]]. now exists r.
+  - apply (parse_chain_total LV resolve s n Hs Hres); [exact Hp|].
+    pose proof (cstring_len s n Hs) as H. unfold len in H. lia.
+Qed.
